@@ -49,7 +49,12 @@ def cell_records(cell):
     if k == "label":
         return rec(0x0204, struct.pack("<HHH", cell[1], cell[2], 15) + xl_string(cell[3], cell[4]))
     if k == "fstring":
-        return (rec(0x0006, struct.pack("<HHH", cell[1], cell[2], 15) + FORMULA_STRING_STUB)
+        # [MS-XLS] 2.1.7.20.6: FORMULA [ARRAY / TABLE / SHRFMLA] [STRING] — every third string formula
+        # is the first cell of a one-cell shared formula, so a SHRFMLA record stands before its STRING
+        mid = b""
+        if (cell[1] + cell[2]) % 3 == 1 and cell[1] < 65536 and cell[2] < 256:
+            mid = rec(0x04BC, struct.pack("<HHBBBB", cell[1], cell[1], cell[2], cell[2], 0, 1) + bytes([3, 0, 0x1E, 1, 0]))
+        return (rec(0x0006, struct.pack("<HHH", cell[1], cell[2], 15) + FORMULA_STRING_STUB) + mid
                 + rec(0x0207, xl_string(cell[3], cell[4])))
     if k == "fstringc":
         return (rec(0x0006, struct.pack("<HHH", cell[1], cell[2], 15) + FORMULA_STRING_STUB)
